@@ -173,3 +173,356 @@ def _add_cxnSp(c):
     c.ensures("post.id_passed", id_ == shapes.fields["_next_shape_id"])
 
 
+
+
+# --------------------------------------------------------------------------------------------
+# group extents
+
+
+def _shape_seq(c, tag):
+    """Symbolic-length sequence of member shapes with abstract geometry X,Y,CX,CY (uninterpreted)."""
+    from pyvc.engine import SSeq, SObj
+    from pptx.oxml.shapes.shared import BaseShapeElement
+
+    n = c.int("n_" + tag)
+    X, Y = z3.Function("X_" + tag, z3.IntSort(), z3.IntSort()), z3.Function("Y_" + tag, z3.IntSort(), z3.IntSort())
+    CX, CY = z3.Function("CX_" + tag, z3.IntSort(), z3.IntSort()), z3.Function("CY_" + tag, z3.IntSort(), z3.IntSort())
+    c.requires(n >= 0)
+    seq = SSeq(n, lambda i: SObj(BaseShapeElement, "member", x=X(i), y=Y(i), cx=CX(i), cy=CY(i)), name="members")
+    return n, X, Y, CX, CY, seq
+
+
+def _is_bbox(n, X, Y, CX, CY, x, y, cx, cy):
+    """(x, y, cx, cy) is the bounding box of members 0..n-1 (n >= 1)."""
+    j = z3.Int("jb")
+    inside = z3.ForAll([j], z3.Implies(z3.And(0 <= j, j < n), z3.And(x <= X(j), y <= Y(j), X(j) + CX(j) <= x + cx, Y(j) + CY(j) <= y + cy)))
+    a, b, d, e = z3.Ints("wa wb wd we")
+    tight = z3.Exists([a, b, d, e], z3.And(0 <= a, a < n, 0 <= b, b < n, 0 <= d, d < n, 0 <= e, e < n,
+                                            x == X(a), y == Y(b), x + cx == X(d) + CX(d), y + cy == Y(e) + CY(e)))
+    return z3.And(inside, tight)
+
+
+def _replay_child_extents(model, rec):
+    # a 2-member witness is enough for every way the bounding-box clause can fail
+    import random
+
+    from pptx.util import Emu
+
+    rnd = random.Random(17)
+    for trial in range(200):
+        slide = native.blank_slide()
+        grp = slide.shapes.add_group_shape()
+        members = []
+        for _ in range(rnd.randint(1, 4)):
+            x, y, cx, cy = rnd.randint(-50, 50), rnd.randint(-50, 50), rnd.randint(0, 60), rnd.randint(0, 60)
+            grp.shapes.add_textbox(Emu(x), Emu(y), Emu(cx), Emu(cy))
+            members.append((x, y, cx, cy))
+        want = (min(m[0] for m in members), min(m[1] for m in members))
+        want += (max(m[0] + m[2] for m in members) - want[0], max(m[1] + m[3] for m in members) - want[1])
+        got = (grp.left, grp.top, grp.width, grp.height)
+        if got != want:
+            return {"confirmed": True, "detail": "members %s: group reports %s, bounding box is %s" % (members, got, want),
+                    "witness_class": "group-extents"}
+    return {"confirmed": False, "detail": "200 random groups agree with their bounding box"}
+
+
+@contract("C17", "C17.oxml.shapes.groupshape.CT_GroupShape._child_extents.fget", replay=_replay_child_extents)
+def _child_extents(c):
+    """_child_extents == bounding box of the member shapes; (0,0,0,0) for an empty group."""
+    from pyvc.engine import GhostFn
+    from pptx.oxml.shapes.groupshape import CT_GroupShape
+
+    n, X, Y, CX, CY, seq = _shape_seq(c, "m")
+    grp = c.obj(CT_GroupShape, "grpSp", iter_shape_elms=GhostFn(lambda it, a, k: seq))
+    out = c.run(CT_GroupShape._child_extents.fget, grp)
+    if out.raised:
+        c.fails("raises", "raised %s" % out.exc)
+        return
+    x, y, cx, cy = out.value
+    c.ensures("post.bbox", z3.If(n == 0, z3.And(x == 0, y == 0, cx == 0, cy == 0), _is_bbox(n, X, Y, CX, CY, x, y, cx, cy)))
+    c.mustfail("mustfail.cx_is_max_width", z3.Implies(n > 0, z3.Exists([z3.Int("q")], cx == CX(z3.Int("q")))))
+
+
+@contract("C17", "C17.oxml.shapes.groupshape.CT_GroupShape.recalculate_extents", replay=_replay_child_extents)
+def _recalculate_extents(c):
+    """After the call a p:grpSp's off/ext and chOff/chExt equal its child extents and the parent is
+    asked to recalculate (recursion is modular: the parent call is checked against this same
+    contract); any other element (p:spTree) is left untouched."""
+    from pyvc.engine import GhostFn, SObj
+    from pptx.oxml.ns import qn
+    from pptx.oxml.shapes.groupshape import CT_GroupShape
+
+    is_grp = c.bool("is_grpSp")
+    tag = qn("p:grpSp") if c.branch(is_grp) else qn("p:spTree")
+    ex = tuple(c.int(k) for k in ("ex_x", "ex_y", "ex_cx", "ex_cy"))
+    calls = []
+    parent = SObj(None, "parent", recalculate_extents=GhostFn(lambda it, a, k: calls.append(1)))
+    chOff = SObj(None, "chOff", x=c.int("chOff_x"), y=c.int("chOff_y"))
+    chExt = SObj(None, "chExt", cx=c.int("chExt_cx"), cy=c.int("chExt_cy"))
+    grp = c.obj(CT_GroupShape, "grpSp", tag=tag, _child_extents=ex, chOff=chOff, chExt=chExt,
+                x=c.int("x"), y=c.int("y"), cx=c.int("cx"), cy=c.int("cy"),
+                getparent=GhostFn(lambda it, a, k: parent))
+    pre = grp.snapshot()
+    pre_off, pre_ext = chOff.snapshot(), chExt.snapshot()
+    out = c.run(CT_GroupShape.recalculate_extents, grp)
+    if out.raised:
+        c.fails("raises", "raised %s" % out.exc)
+        return
+    f = grp.fields
+    if tag == qn("p:grpSp"):
+        c.ensures("post.offset", z3.And(f["x"] == ex[0], f["y"] == ex[1], chOff.fields["x"] == ex[0], chOff.fields["y"] == ex[1]))
+        c.ensures("post.extent", z3.And(f["cx"] == ex[2], f["cy"] == ex[3], chExt.fields["cx"] == ex[2], chExt.fields["cy"] == ex[3]))
+        c.ensures("post.parent_recalculated_once", len(calls) == 1)
+    else:
+        c.ensures("frame.non_group_untouched", z3.And(*[f[k] == pre[k] for k in ("x", "y", "cx", "cy")] +
+                                                      [chOff.fields[k] == pre_off[k] for k in pre_off] +
+                                                      [chExt.fields[k] == pre_ext[k] for k in pre_ext]))
+        c.ensures("post.no_parent_call", len(calls) == 0)
+
+
+# --------------------------------------------------------------------------------------------
+# freeform
+
+
+def _builder(c, with_offsets=False):
+    """FreeformBuilder with a symbolic-length operation list: op j is a _Close when CLOSE(j),
+    otherwise a line/move to (PX(j), PY(j))."""
+    from pyvc.engine import SSeq, SObj
+    from pptx.shapes.freeform import FreeformBuilder, _Close, _LineSegment, _MoveTo
+
+    n = c.int("n_ops")
+    c.requires(n >= 0)
+    PX = z3.Function("PX", z3.IntSort(), z3.IntSort())
+    PY = z3.Function("PY", z3.IntSort(), z3.IntSort())
+    CLOSE = z3.Function("CLOSE", z3.IntSort(), z3.BoolSort())
+    MOVE = z3.Function("MOVE", z3.IntSort(), z3.BoolSort())
+    b = c.obj(FreeformBuilder, "builder", _start_x=c.int("start_x"), _start_y=c.int("start_y"),
+              _x_scale=c.real("x_scale"), _y_scale=c.real("y_scale"))
+
+    def elem(it, k):
+        which = it.path.fork([CLOSE(k), z3.And(z3.Not(CLOSE(k)), MOVE(k)), z3.And(z3.Not(CLOSE(k)), z3.Not(MOVE(k)))])
+        if which == 0:
+            return SObj(_Close, "close")
+        return SObj(_MoveTo if which == 1 else _LineSegment, "op", _freeform_builder=b, _x=PX(k), _y=PY(k))
+
+    b.fields["_drawing_operations"] = SSeq(n, lambda i: elem(c.interp, i), name="ops")
+    return b, n, PX, PY, CLOSE, elem
+
+
+def _minspec(n, P, CLOSE, start, m, k=None):
+    """m is the minimum of start and P(j) over the non-close ops j < k (k defaults to n)."""
+    k = n if k is None else k
+    j = z3.Int("jm")
+    w = z3.Int("wm")
+    return z3.And(m <= start,
+                  z3.ForAll([j], z3.Implies(z3.And(0 <= j, j < k, z3.Not(CLOSE(j))), m <= P(j))),
+                  z3.Or(m == start, z3.Exists([w], z3.And(0 <= w, w < k, z3.Not(CLOSE(w)), m == P(w)))))
+
+
+def _maxspec(n, P, CLOSE, start, m, k=None):
+    k = n if k is None else k
+    j = z3.Int("jx")
+    w = z3.Int("wx")
+    return z3.And(m >= start,
+                  z3.ForAll([j], z3.Implies(z3.And(0 <= j, j < k, z3.Not(CLOSE(j))), m >= P(j))),
+                  z3.Or(m == start, z3.Exists([w], z3.And(0 <= w, w < k, z3.Not(CLOSE(w)), m == P(w)))))
+
+
+def _replay_freeform(model, rec):
+    import random
+
+    rnd = random.Random(5)
+    for trial in range(150):
+        slide = native.blank_slide()
+        sx, sy = rnd.choice([1.0, 2.5, 0.3, 100.0]), rnd.choice([1.0, 0.75, 12.0])
+        start = (rnd.randint(-40, 40), rnd.randint(-40, 40))
+        fb = slide.shapes.build_freeform(start[0], start[1], scale=(sx, sy))
+        pts = [start]
+        for _ in range(rnd.randint(1, 3)):
+            seg = [(rnd.randint(-60, 60) + rnd.choice([0, 0.5]), rnd.randint(-60, 60)) for _ in range(rnd.randint(1, 4))]
+            fb.add_line_segments(seg, close=rnd.random() < 0.5)
+            pts += seg
+            if rnd.random() < 0.4:
+                mv = (rnd.randint(-60, 60), rnd.randint(-60, 60))
+                fb.move_to(*mv)
+                pts.append(mv)
+        ox, oy = rnd.randint(-100, 100), rnd.randint(-100, 100)
+        shp = fb.convert_to_shape(ox, oy)
+        xs = [int(round(p[0])) for p in pts]
+        ys = [int(round(p[1])) for p in pts]
+        want = (ox + int(round(min(xs) * sx)), oy + int(round(min(ys) * sy)), int(round((max(xs) - min(xs)) * sx)), int(round((max(ys) - min(ys)) * sy)))
+        got = (shp.left, shp.top, shp.width, shp.height)
+        path = shp._element.spPr.custGeom.pathLst.path_lst[0] if hasattr(shp._element.spPr.custGeom.pathLst, "path_lst") else None
+        bad = []
+        if got != want:
+            bad.append("shape reports %s, scaled bounding box is %s" % (got, want))
+        from lxml import etree
+        for pt in shp._element.xpath(".//a:pathLst/a:path//a:pt"):
+            px, py = int(pt.get("x")), int(pt.get("y"))
+            w = int(shp._element.xpath(".//a:pathLst/a:path/@w")[0]); h = int(shp._element.xpath(".//a:pathLst/a:path/@h")[0])
+            if not (0 <= px <= w and 0 <= py <= h):
+                bad.append("path point (%d,%d) outside extents (%d,%d)" % (px, py, w, h))
+        if bad:
+            return {"confirmed": True, "detail": bad, "witness_class": "freeform-bounds"}
+    return {"confirmed": False, "detail": "150 random freeforms agree"}
+
+
+def _freeform_loop_contract(attr, axis, kind):
+    """shape_offset_x/_y (min) and _dx/_dy (max - min) over an unbounded operation list."""
+    from pyvc.engine import invariant_loop
+    from pptx.shapes.freeform import FreeformBuilder
+
+    prop = getattr(FreeformBuilder, attr)
+    qn = "pptx.shapes.freeform:FreeformBuilder.%s" % attr
+
+    @contract("C17", "C17.shapes.freeform.FreeformBuilder.%s.fget" % attr, replay=_replay_freeform)
+    def body(c):
+        b, n, PX, PY, CLOSE, elem = _builder(c)
+        P = PX if axis == "x" else PY
+        start = b.fields["_start_x" if axis == "x" else "_start_y"]
+        lo, hi = "min_" + axis, "max_" + axis
+        if kind == "min":
+            inv = lambda env, k: _minspec(n, P, CLOSE, start, env[lo], k)
+            mods = [lo]
+        else:
+            inv = lambda env, k: z3.And(_minspec(n, P, CLOSE, start, env[lo], k), _maxspec(n, P, CLOSE, start, env[hi], k))
+            mods = [lo, hi]
+        c.loop_specs[(qn, 0)] = invariant_loop("C17.shapes.freeform.FreeformBuilder.%s.loop0" % attr, mods, inv, elem=elem)
+        out = c.run(prop.fget, b)
+        if out.raised:
+            c.fails("raises", "raised %s" % out.exc)
+            return
+        r = out.value
+        if kind == "min":
+            c.ensures("post.is_min", _minspec(n, P, CLOSE, start, r))
+        else:
+            mn, mx = z3.Ints("gmin gmax")
+            c.ensures("post.is_max_minus_min", z3.Exists([mn, mx], z3.And(_minspec(n, P, CLOSE, start, mn), _maxspec(n, P, CLOSE, start, mx), r == mx - mn)))
+            c.ensures("post.nonneg", r >= 0)
+
+    return body
+
+
+_freeform_loop_contract("shape_offset_x", "x", "min")
+_freeform_loop_contract("shape_offset_y", "y", "min")
+_freeform_loop_contract("_dx", "x", "span")
+_freeform_loop_contract("_dy", "y", "span")
+
+
+@contract("C17", "C17.shapes.freeform.FreeformBuilder._add_freeform_sp", replay=_replay_freeform)
+def _add_freeform_sp(c):
+    """position = origin + round(offset*scale), size = round(d*scale) (modular: shape_offset_*/_dx/_dy
+    enter through their proved contracts as abstract fields)."""
+    from pyvc.engine import GhostFn, SObj, real_round_half_even, to_real
+    from pptx.shapes.freeform import FreeformBuilder
+
+    got = {}
+    spTree = SObj(None, "spTree", add_freeform_sp=GhostFn(lambda it, a, k: got.setdefault("a", a) and "sp"))
+    shapes = SObj(None, "shapes", _spTree=spTree)
+    offx, offy, dx, dy = c.int("offset_x"), c.int("offset_y"), c.int("dx"), c.int("dy")
+    c.requires(z3.And(dx >= 0, dy >= 0))  # proved post of _dx/_dy
+    sx, sy = c.real("x_scale"), c.real("y_scale")
+    b = c.obj(FreeformBuilder, "builder", _shapes=shapes, shape_offset_x=offx, shape_offset_y=offy, _dx=dx, _dy=dy,
+              _x_scale=sx, _y_scale=sy)
+    ox, oy = c.int("origin_x"), c.int("origin_y")
+    out = c.run(FreeformBuilder._add_freeform_sp, b, ox, oy)
+    if out.raised:
+        c.fails("raises", "raised %s" % out.exc)
+        return
+    x, y, cx, cy = got["a"]
+    rr = real_round_half_even
+    c.ensures("post.position", z3.And(x == ox + rr(to_real(offx) * sx), y == oy + rr(to_real(offy) * sy)))
+    c.ensures("post.size", z3.And(cx == rr(to_real(dx) * sx), cy == rr(to_real(dy) * sy)))
+    c.ensures("post.size_nonneg_for_nonneg_scale", z3.Implies(z3.And(sx >= 0, sy >= 0), z3.And(cx >= 0, cy >= 0)))
+
+
+def _op_contract(clsname, meth):
+    @contract("C17", "C17.shapes.freeform.%s.apply_operation_to" % clsname, replay=_replay_freeform)
+    def body(c):
+        """Every path coordinate written lies within the path extents: 0 <= x - offset_x <= dx (uses the
+        contracts of shape_offset_*, _dx, _dy)."""
+        from pyvc.engine import GhostFn, SObj
+        import pptx.shapes.freeform as ff
+
+        cls = getattr(ff, clsname)
+        n = c.int("n_ops")
+        PX = z3.Function("PX", z3.IntSort(), z3.IntSort())
+        PY = z3.Function("PY", z3.IntSort(), z3.IntSort())
+        CLOSE = z3.Function("CLOSE", z3.IntSort(), z3.BoolSort())
+        sxx, syy = c.int("start_x"), c.int("start_y")
+        mnx, mny, mxx, mxy = c.int("min_x"), c.int("min_y"), c.int("max_x"), c.int("max_y")
+        # callee contracts (proved above) describe the builder's derived quantities
+        c.requires(z3.And(_minspec(n, PX, CLOSE, sxx, mnx), _minspec(n, PY, CLOSE, syy, mny),
+                          _maxspec(n, PX, CLOSE, sxx, mxx), _maxspec(n, PY, CLOSE, syy, mxy)))
+        b = SObj(ff.FreeformBuilder, "builder", shape_offset_x=mnx, shape_offset_y=mny, _dx=mxx - mnx, _dy=mxy - mny)
+        j = c.int("j")
+        c.requires(z3.And(0 <= j, j < n, z3.Not(CLOSE(j))))
+        op = SObj(cls, "op", _freeform_builder=b, _x=PX(j), _y=PY(j))
+        got = {}
+        path = SObj(None, "path", **{meth: GhostFn(lambda it, a, k: got.setdefault("a", a) and "pt")})
+        out = c.run(cls.apply_operation_to, op, path)
+        if out.raised:
+            c.fails("raises", "raised %s" % out.exc)
+            return
+        x, y = got["a"]
+        c.ensures("post.within_extents", z3.And(0 <= x, x <= b.fields["_dx"], 0 <= y, y <= b.fields["_dy"]))
+        c.ensures("post.shape_coordinates", z3.And(x == PX(j) - mnx, y == PY(j) - mny))
+
+    return body
+
+
+_op_contract("_LineSegment", "add_lnTo")
+_op_contract("_MoveTo", "add_moveTo")
+
+
+@contract("C17", "C17.shapes.freeform.FreeformBuilder._start_path", replay=_replay_freeform)
+def _start_path(c):
+    """The path is created with extents (dx, dy) and starts at the start point in shape coordinates, inside the extents."""
+    from pyvc.engine import GhostFn, SObj
+    import pptx.shapes.freeform as ff
+
+    n = c.int("n_ops")
+    PX = z3.Function("PX", z3.IntSort(), z3.IntSort())
+    PY = z3.Function("PY", z3.IntSort(), z3.IntSort())
+    CLOSE = z3.Function("CLOSE", z3.IntSort(), z3.BoolSort())
+    sxx, syy = c.int("start_x"), c.int("start_y")
+    mnx, mny, mxx, mxy = c.int("min_x"), c.int("min_y"), c.int("max_x"), c.int("max_y")
+    c.requires(z3.And(_minspec(n, PX, CLOSE, sxx, mnx), _minspec(n, PY, CLOSE, syy, mny),
+                      _maxspec(n, PX, CLOSE, sxx, mxx), _maxspec(n, PY, CLOSE, syy, mxy)))
+    b = SObj(ff.FreeformBuilder, "builder", shape_offset_x=mnx, shape_offset_y=mny, _dx=mxx - mnx, _dy=mxy - mny,
+             _start_x=sxx, _start_y=syy)
+    got = {}
+    path = SObj(None, "path", add_moveTo=GhostFn(lambda it, a, k: got.setdefault("mv", a) and "pt"))
+    sp = SObj(None, "sp", add_path=GhostFn(lambda it, a, k: (got.setdefault("wh", k), path)[1]))
+    out = c.run(ff.FreeformBuilder._start_path, b, sp)
+    if out.raised:
+        c.fails("raises", "raised %s" % out.exc)
+        return
+    x, y = got["mv"]
+    c.ensures("post.extents", z3.And(got["wh"]["w"] == mxx - mnx, got["wh"]["h"] == mxy - mny))
+    c.ensures("post.start_within", z3.And(0 <= x, x <= mxx - mnx, 0 <= y, y <= mxy - mny))
+
+
+def _new_contract(clsname):
+    @contract("C17", "C17.shapes.freeform.%s.new" % clsname)
+    def body(c):
+        """Vertices are rounded half-even to integers before use."""
+        from pyvc.engine import SObj, real_round_half_even
+        import pptx.shapes.freeform as ff
+
+        cls = getattr(ff, clsname)
+        x, y = c.real("x"), c.real("y")
+        b = SObj(ff.FreeformBuilder, "builder")
+        out = c.call(cls.new, b, x, y)
+        if out.raised:
+            c.fails("raises", "raised %s" % out.exc)
+            return
+        op = out.value
+        c.ensures("post.rounded", z3.And(op.fields["_x"] == real_round_half_even(x), op.fields["_y"] == real_round_half_even(y)))
+        c.ensures("post.builder", op.fields["_freeform_builder"] is b)
+
+    return body
+
+
+_new_contract("_LineSegment")
+_new_contract("_MoveTo")
